@@ -72,10 +72,61 @@ def _resolve_expr(func: Func, e: ast.AST, depth: int = 0) -> ast.AST:
     return e
 
 
+def _has_atom_loop(f: Func) -> bool:
+    for n in own_nodes(f.node):
+        if isinstance(n, ast.For) and isinstance(n.iter, ast.Call) and isinstance(n.iter.func, ast.Attribute) and n.iter.func.attr == "GetAtoms":
+            if any(isinstance(x, (ast.AugAssign, ast.Assign)) for x in ast.walk(n)):
+                return True
+    return False
+
+
+def locate_counting(ctx):
+    """(function holding the per-atom counting loop, [(caller, call, callee)] hops from decompose)"""
+    prog = ctx.prog
+    root = prog.func(DECOMPOSE)
+    if _has_atom_loop(root):
+        return root, []
+    seen = {root.qualname}
+    frontier = [(root, [])]
+    for _ in range(2):
+        nxt = []
+        for f, hops in frontier:
+            for c in calls(f):
+                tgt = ctx.res.resolve_callee(c, f)
+                if tgt and tgt[0] == "func" and tgt[1] in prog.functions and tgt[1] not in seen:
+                    g = prog.functions[tgt[1]]
+                    seen.add(g.qualname)
+                    h = hops + [(f, c, g)]
+                    if _has_atom_loop(g):
+                        return g, h
+                    nxt.append((g, h))
+        frontier = nxt
+    raise AnalysisError("%s: no per-atom counting loop found in decompose or its callees (restructured)" % DECOMPOSE)
+
+
+def piecewise_findings(ctx, rule_id: str) -> None:
+    """The text that is parsed must be the whole side string handed to
+    decompose: parsing dot-separated pieces one by one loses molecules that
+    are only valid as a whole (ring closures across '.') and changes what an
+    unparsable piece means."""
+    g, hops = locate_counting(ctx)
+    for caller, call, callee in hops:
+        arg = call.args[0] if call.args else None
+        whole = isinstance(arg, ast.Name) and arg.id in caller.params
+        why = ""
+        if isinstance(arg, ast.Name) and not whole:
+            for loop, target, it in loop_binding(caller, arg.id):
+                if isinstance(it, ast.Call) and isinstance(it.func, ast.Attribute) and it.func.attr in ("split", "rsplit"):
+                    why = "each piece of %s is parsed on its own" % unparse(it)
+        ctx.instance(rule_id, "%s hands %s to %s" % (caller.name, unparse(arg) if arg is not None else "?", callee.name), caller.loc(call), ok=whole)
+        if not whole:
+            ctx.finding(rule_id, "RSMIDecomposer.decompose:piecewise", caller.loc(call), "the composition is no longer computed from the whole side string (%s): a molecule written with a ring closure across '.' (C1.O1) is dropped piece by piece and counts as nothing" % (why or "argument %s" % (unparse(arg) if arg is not None else "?")))
+
+
 def rule_e1(ctx, rule_id: str = "C07-E1") -> None:
     """Element labelling injective (also serves C01-R5)."""
     prog = ctx.prog
-    f = prog.func(DECOMPOSE)
+    f, _hops = locate_counting(ctx)
     ctx.rule(rule_id, "composition key of an atom is an injective function of its element over Z=1..118", 1)
     # the counting store: comp[<key>] += 1 inside a loop over atoms
     stores = []
@@ -189,8 +240,9 @@ def _injective(ctx, f: Func, key: ast.AST, atom: str) -> Tuple[str, str]:
 
 
 def rule_e2(ctx) -> None:
-    f = ctx.prog.func(DECOMPOSE)
-    ctx.rule("C07-E2", "atoms counted are GetAtoms() of AddHs(MolFromSmiles(<smiles parameter>))", 1)
+    f, _hops = locate_counting(ctx)
+    ctx.rule("C07-E2", "atoms counted are GetAtoms() of AddHs(MolFromSmiles(<whole side string>))", 1)
+    piecewise_findings(ctx, "C07-E2")
     n_loops = 0
     for n in own_nodes(f.node):
         if isinstance(n, ast.For) and isinstance(n.iter, ast.Call) and isinstance(n.iter.func, ast.Attribute) and n.iter.func.attr == "GetAtoms":
@@ -220,7 +272,7 @@ def rule_e2(ctx) -> None:
 
 
 def rule_e3(ctx) -> str:
-    f = ctx.prog.func(DECOMPOSE)
+    f, _hops = locate_counting(ctx)
     ctx.rule("C07-E3", "net charge = GetFormalCharge(molecule) stored under the charge key used by all consumers", 2)
     key = None
     for n in own_nodes(f.node):
@@ -241,8 +293,18 @@ def rule_e3(ctx) -> str:
                     ctx.finding("C07-E3", "RSMIDecomposer.decompose:charge-source", f.loc(n), "formal charge is not read from the parsed molecule")
                 key = k
     if key is None:
-        ctx.finding("C07-E3", "RSMIDecomposer.decompose:charge-store", f.loc(), "no store of GetFormalCharge(...) under a constant key found")
-        return "Q"
+        # restructured code: accept a charge that is computed by GetFormalCharge in the
+        # counting function and stored under a constant key in decompose itself
+        root = ctx.prog.func(DECOMPOSE)
+        has_call = any(isinstance(n, ast.Call) and (dotted(n.func) or "").split(".")[-1] == "GetFormalCharge" for g in (f, root) for n in own_nodes(g.node))
+        stores = [const_str(n.targets[0].slice) for n in own_nodes(root.node) if isinstance(n, ast.Assign) and len(n.targets) == 1 and isinstance(n.targets[0], ast.Subscript) and const_str(n.targets[0].slice) and "charge" in unparse(n.value).lower()]
+        if has_call and stores:
+            key = stores[0]
+            ctx.instance("C07-E3", "decompose stores the accumulated charge under %r (GetFormalCharge in %s)" % (key, f.name), root.loc(), ok=True)
+        else:
+            ctx.instance("C07-E3", "decompose: charge store", f.loc(), ok=False)
+            ctx.finding("C07-E3", "RSMIDecomposer.decompose:charge-store", f.loc(), "no store of GetFormalCharge(...) under a constant key found")
+            key = "Q"
     consumers = [
         "synrbl.SynProcessor.rsmi_both_side_process.BothSideReact.__init__",
         "synrbl.SynProcessor.rsmi_both_side_process.BothSideReact.reverse_values_if_negative_except_Q",
